@@ -3,11 +3,11 @@
 A case line is  "se <seed> <session_timeout_s> <max_idle_sessions> <op>*"  (ops documented in the
 driver).  All randomness comes from the random.Random handed in (tie.rng_for)."""
 
-RX_KINDS = "gcsoOdDahbnBxvempqP"
+RX_KINDS = "gcsoOdDahbnBxvempqPuwUy"
 # weights: plain traffic dominates, every reference holder appears regularly
 RX_WEIGHTS = {
     "g": 10, "c": 6, "s": 6, "o": 5, "O": 5, "d": 2, "D": 2, "a": 4, "h": 4,
-    "b": 2, "n": 2, "B": 1, "x": 1, "v": 1, "e": 1, "m": 3, "p": 2, "q": 1, "P": 1,
+    "b": 2, "n": 2, "B": 1, "x": 1, "v": 1, "e": 1, "m": 3, "p": 2, "q": 1, "P": 1, "u": 2, "w": 2, "U": 1, "y": 1,
 }
 
 
@@ -62,7 +62,7 @@ def gen_history(r, stale_etag=False, max_peers=None):
     elif focus == "hold":
         weights.update({"h": 14})
     elif focus == "observe":
-        weights.update({"o": 12, "O": 12, "d": 5, "D": 5})
+        weights.update({"o": 12, "O": 12, "d": 5, "D": 5, "u": 10, "w": 10, "U": 6, "y": 4})
     elif focus == "queue":
         weights.update({"s": 14, "a": 8, "O": 8, "m": 8})
     advs = boundary_advances(timeout)
@@ -97,12 +97,14 @@ def gen_history(r, stale_etag=False, max_peers=None):
                 ops.append("prep")
         elif x < 0.90:
             ops.append("prep")
-        elif x < 0.96:
+        elif x < 0.95:
             ops.append("notify:%d" % r.randrange(2))
             if r.random() < 0.7:
                 ops.append("prep")
         else:
             ops.append("disc:%d" % p)
+            if r.random() < 0.5:
+                ops += ["adv:%d" % ((timeout if timeout > 0 else 300) * 1000), "prep"]
     # context teardown at a random point
     explicit = False
     if r.random() < 0.5:
@@ -130,6 +132,10 @@ def boundary_cases():
         out.append("se 13 %d 0 rx:0:h adv:%d prep rel:0 prep adv:%d prep" % (t, 2 * T, T))
         out.append("se 14 %d 0 rx:0:o rx:1:O adv:%d prep notify:0 notify:1 prep adv:%d prep rx:0:d rst:1 adv:%d prep"
                    % (t, T, T, T))
+    # several observations of one resource by one peer (other query, other token): a disconnect,
+    # a Reset, a cancel and the timeout have to deal with all of them
+    out.append("se 28 1 0 rx:0:o rx:0:u rx:0:w rx:1:u rx:1:U disc:0 adv:1000 prep disc:1 adv:1000 prep")
+    out.append("se 29 1 0 rx:0:u rx:0:w rx:0:y adv:1000 prep notify:0 prep disc:0 adv:1000 prep rx:0:o rx:0:u free")
     # integer widths: seconds * 1000 must not be cut to 32 (or 31) bits
     for t in WIDE_TIMEOUTS:
         w = (t * 1000) % (1 << 32)
